@@ -110,7 +110,7 @@ def gen_cases(rng, tier):
                     fs = [[k0 + 2, 2], [k0 + 3, k2], [k0 + 6, 1]]
                     cases.append({"in": [h, fs, [], idle], "kind": "repeated"})
                     cases.append({"in": [h, fs, [[0, 0, 0]], idle], "kind": "repeated"})
-    nrand = 20000 if tier == "thorough" else 700
+    nrand = 20000 if tier == "thorough" else 450
     for _ in range(nrand):
         n = rng.randint(4, 10)
         h = [rng.choice([E, E, E, B, C, R, R, S, SR, SC]) for _ in range(n)]
@@ -427,7 +427,7 @@ def match_finding(c, what):
 LEVEL_TEXT = (
     "Machine-checked proof (Coq) over a Gallina state machine of one Connection on a QueuePool with a fault oracle at "
     "every DBAPI call, for ALL histories of execute/begin/commit/rollback/savepoint operations, ALL fault positions and "
-    "the modelled handle_error listeners: a disconnect-classified error leaves the Connection invalidated; after a "
+    "every chain of handle_error listeners (each assigning is_disconnect / invalidate_pool_on_disconnect or not, returning None, returning an exception or raising): a disconnect-classified error leaves the Connection invalidated; after a "
     "disconnect on a live connection no later execute/commit/rollback ever runs on a DBAPI connection opened before it "
     "(invariant over the pool's invalidation time, proved for every continuation); with a transaction in progress every "
     "later operation except rollback() raises and reaches no DBAPI call; rollback() clears the state without a DBAPI call "
@@ -438,8 +438,8 @@ LEVEL_TEXT = (
 LEVEL_NOTE = (
     "Trusted: Coq kernel; the hand transcription (pin + correspondence); the fake DBAPI and logical clock. No axioms "
     "(Print Assumptions: closed under the global context). Not covered: Connection.close()/checkin under faults (C26), "
-    "the handler's auto-rollback/re-entrancy branch (unreachable for this operation alphabet), listeners that raise or "
-    "replace the exception, two-phase transactions, several Connections sharing the pool (a connect()-time disconnect "
+    "the handler's auto-rollback/re-entrancy branch (unreachable for this operation alphabet), listeners that use the "
+    "connection, two-phase transactions, several Connections sharing the pool (a connect()-time disconnect "
     "during a reconnect does not stamp the pool - by design of Pool._invalidate, outside the property's 'statement fails' "
     "premise), pre_ping."
 )
